@@ -12,7 +12,8 @@ EXTENDS AgentDedupBatches, FiniteSets, TLC
 \* IdPool (request IDs the environment may list), MaxBatch (longest list reply) and MaxLists
 \* (number of list replies) come from AgentDedupBatches
 CONSTANTS LruCap,     \* requestCacheLimit
-          NoDedup     \* deviation switch: the LRU check is absent
+          NoDedup,    \* deviation switch: the LRU check is absent
+          ForgetOnFailure  \* deviation switch: the first list reply after a failed list call starts with an empty LRU
 
 VARIABLES lists,     \* number of list replies so far
           agent,     \* "idle" (about to list) | "proc"
@@ -20,12 +21,14 @@ VARIABLES lists,     \* number of list replies so far
           seen,      \* LRU, most recent first
           w,         \* [IdPool -> bag of worker states] as a sequence of states, one per spawned worker
           calls,     \* [IdPool -> Nat] backend invocations for this request
-          served     \* [IdPool -> Nat] completed uploads
+          served,    \* [IdPool -> Nat] completed uploads
+          lost       \* a list call has failed since the last list reply (the loop is in its back-off branch)
 
-vars == <<lists, agent, cur, seen, w, calls, served>>
+vars == <<lists, agent, cur, seen, w, calls, served, lost>>
 
 Init == /\ lists = 0 /\ agent = "idle" /\ cur = <<>> /\ seen = <<>>
         /\ w = [i \in IdPool |-> <<>>] /\ calls = [i \in IdPool |-> 0] /\ served = [i \in IdPool |-> 0]
+        /\ lost = FALSE
 
 InSeq(s, x) == \E k \in 1..Len(s) : s[k] = x
 Without(s, x) == SelectSeq(s, LAMBDA y : y # x)
@@ -35,7 +38,17 @@ EnvList(b) ==                 \* the proxy answers the agent's list call with ba
   /\ agent = "idle" /\ lists < MaxLists
   /\ lists' = lists + 1
   /\ cur' = b /\ agent' = "proc"
-  /\ UNCHANGED <<seen, w, calls, served>>
+  /\ lost' = FALSE
+  /\ seen' = IF ForgetOnFailure /\ lost THEN <<>> ELSE seen     \* what the agent remembers survives failed list calls
+  /\ UNCHANGED <<w, calls, served>>
+
+\* the list call fails (5xx, connection lost, time-out): the loop backs off and calls again (agent.go:222-229);
+\* the workers go on, what was seen stays seen
+EnvListFail ==
+  /\ agent = "idle" /\ lists < MaxLists
+  /\ lists' = lists + 1
+  /\ lost' = TRUE
+  /\ UNCHANGED <<agent, cur, seen, w, calls, served>>
 
 DedupStep ==                  \* one iteration of `for _, requestID := range requests`
   /\ agent = "proc" /\ cur # <<>>
@@ -46,7 +59,7 @@ DedupStep ==                  \* one iteration of `for _, requestID := range req
               /\ w' = [w EXCEPT ![i] = Append(@, "fetch")]
   /\ cur' = Tail(cur)
   /\ agent' = IF Tail(cur) = <<>> THEN "idle" ELSE "proc"
-  /\ UNCHANGED <<lists, calls, served>>
+  /\ UNCHANGED <<lists, calls, served, lost>>
 
 \* worker k of request i advances: fetch -> forward (backend invoked) -> upload -> done
 WStep(i, k) ==
@@ -56,16 +69,17 @@ WStep(i, k) ==
         /\ calls' = [calls EXCEPT ![i] = @ + 1] /\ UNCHANGED served
      \/ /\ w[i][k] = "upload"  /\ w' = [w EXCEPT ![i][k] = "done"]
         /\ served' = [served EXCEPT ![i] = @ + 1] /\ UNCHANGED calls
-  /\ UNCHANGED <<lists, agent, cur, seen>>
+  /\ UNCHANGED <<lists, agent, cur, seen, lost>>
 
 \* the upload of worker k of request i fails for good (the proxy hangs up on every attempt): the worker ends, the
 \* request stays forwarded-once - being listed again later must not forward it again
 WUploadFails(i, k) ==
   /\ k \in 1..Len(w[i]) /\ w[i][k] = "upload"
   /\ w' = [w EXCEPT ![i][k] = "failed"]
-  /\ UNCHANGED <<lists, agent, cur, seen, calls, served>>
+  /\ UNCHANGED <<lists, agent, cur, seen, calls, served, lost>>
 
 Next == \/ \E b \in Batches : EnvList(b)
+        \/ EnvListFail
         \/ DedupStep
         \/ \E i \in IdPool : \E k \in 1..Len(w[i]) : WStep(i, k) \/ WUploadFails(i, k)
 
